@@ -200,6 +200,20 @@ NOT_YET = "no sound static rule built for this property yet in this framework (f
 
 NA = {}
 
+# rules added after the second round of independently written breaking changes (DESIGN.md section 5)
+ADDED = {'C01': 'G2-no-shared-mutation: the transposes only read the cached route map/layout tables (no `.pop()`, store or in-place update through an alias).',
+         'C02': "G4-layout-derived-state: every attribute of Grid computed from `self._layout` is refreshed by every method that rebinds `self._layout`; G4-bufsize-handler-block: in LayoutHandler.__init__ the exchange block of every connected pair starts from that pair's own local shape.", 'C03': "A1-communicator-identity: getAxes/_compatibleLayout match the handlers' communicators as objects, not by size; G2-no-shared-mutation as in C01; gather/scatter/constructor geometry as structural templates.", 'C04': "re-decides the handler's element-placement contract (G1–G3, P1 of C01) and G4-layout-derived-state, since 'layout changes never alter the field' rests on them.", 'C05': 'C-cache-distinct / C-cache-index-space: the per-z potential splines of PoloidalAdvection are distinct objects and are written (gridStep) and read (gridStep_SplinesUnchanged) in one index space; E2-gradient-out-param: ParallelGradient.parallel_gradient leaves its result in the array the caller hands in.',
+         'C06': "B5-gatherv-geometry: the root's receive buffer has exactly the sum of the gathered counts, displacements are their exclusive prefix sums, every member reports the size of the array it then sends; a kept receive buffer re-allocated under the wrong comparison is diagnosed.", 'C07': "accumulation onto a never-initialised cell is the cell's initial content plus the sum (reported as a difference from the specification).", 'C08': 'uniform auxiliary knot vectors recognised through `linspace`, `a + dx*arange(n)` forms; origin and spacing compared symbolically.',
+         'C10': 'G5-cache-key on every method of FluxSurfaceAdvection; `round`, `ceil`, `len`, `.size` in the element-wise model (periodic reduction of the displacement is reported against the formula).',
+         'C11': 'G5-cache-key on VParallelAdvection; E2-gradient-out-param (shared with C05).',
+         'C12': 'G5-cache-key; C-cache-* of C05; the fixed-point iteration is executed symbolically with all predictor-phase locals in scope.',
+         'C13': 'G5-cache-key; theta table and accumulation statement as structural templates with piecewise diagnoses.',
+         'C14': 'F4-weak-form-operator: the assembled theta-independent operator, as a signed sum of the extracted block integrands, equals the weak form (a block stored with the opposite sign is a convention, decided at operator level); F4-mode-power: coefficient of the k2 block is −m², counting the squaring in the constructor; F5-mode-numbers (shared with C15); F5-m0-convention (shared with C15); F4-output-complete: no path of the z loop skips the store into phi.',
+         'C15': 'F5-m0-convention on coefficient vectors over the assembled blocks, per assignment and per value of chi (handles `stiffnessMatrix - chi*block` forms); F4-mode-power at the three operator sites incl. QuasiNeutralitySolver.solveEquation; F4-output-complete.',
+         'C16': 'E2-output-storage: the kernels write the whole storage of the density grid (`.real`/`.imag`/sliced views are diagnosed).',
+         'C17': 'K2-loop-variable-after-loop (Python keeps the last value taken, compiled loops the first not taken); K1 extended to single-step periodic corrections of a subtracted index; V5-inputs-not-written: arrays the reference declares `Final` are not written by a numba/pythran copy, also not through a view or inside copy-only helper functions.',
+         'C20': "N1-call-site: the process count is the size of the communicator the layouts are built on; N3-no-stuck-iteration: no iteration path of a search loop reaches the back edge with the loop-carried state unchanged (the one such path of today's code is discharged by the monotonicity argument, which is accepted only while the statements carrying it are recognised); N4-pure-search: no in-place change of a memoised result, no global state."}
+
 
 def main():
     props = [json.loads(l) for l in open(os.path.join(ROOT, "properties.jsonl"))]
@@ -213,10 +227,13 @@ def main():
                 "property_id": pid,
                 "quick_cmd": f"/venv/bin/python -m pgverif check {pid} --tier quick",
                 "thorough_cmd": f"/venv/bin/python -m pgverif check {pid} --tier thorough",
+                "thorough_note": "quick tier, then the checker's self-test for this property: nine behaviour-preserving rewrites of the "
+                                 "working tree must stay silent and every recorded breaking change of the property must be reported",
                 "evidence_file": f"/verif/evidence/{pid}.json",
                 "replay_cmd_template": f"/venv/bin/python -m pgverif check {pid} --tier quick  # replay file {{path}} names the obligation",
                 "engine": "pgverif",
-                "level_claimed": {"category": "other", "text": c["text"], "design_ref": c["design"]},
+                "level_claimed": {"category": "other", "text": c["text"] + (" Also decided: " + ADDED[pid] if pid in ADDED else ""),
+                                  "design_ref": c["design"]},
                 "level_note": TRUST + " " + c.get("note", ""),
                 "technique": c["technique"],
             })
